@@ -6,7 +6,7 @@ CFG = {
     "prop_file": "theories/Properties/C15.v",
     "theory_files": ["theories/Base/Bytes.v", "theories/Base/BytesProofs.v",
                      "theories/Formats/Splat.v", "theories/Formats/SplatProofs.v",
-                     "theories/Formats/Spz.v", "theories/Formats/SpzProofs.v"],
+                     "theories/Formats/Spz.v", "theories/Formats/SpzProofs.v", "theories/Formats/SplatReal.v"],
     "level_text": "Coq theorems about byte-level models of splat.Write/Read (32-byte records, exact rational "
                   "quantisers/dequantisers, count law, round trip within one 8-bit step, prefix behaviour, the pinned "
                   "rotation wrap refuted) and of spz.Read (header, planar arrays, 24-bit sign extension, half floats, "
@@ -18,7 +18,9 @@ CFG = {
                   "(generator quality bounds it); exp/log/sigmoid/sqrt are Go float functions: Section variables in the "
                   "theorems, tolerance checks harness-side (sqrt is checked in Coq through w*w); gzip is Go's "
                   "compress/gzip; the PLY byte layout of SplatPly is only checked per case (body = float32 words in "
-                  "table order), the general PLY model belongs to C04",
+                  "table order), the general PLY model belongs to C04; one theorem (splat_scale_real, the exp/log "
+                  "scale clause) is stated over Coq's Reals and therefore shows the standard library's real-number "
+                  "axioms under Print Assumptions, every other theorem is closed under the global context",
     "technique": "Coq proof (induction over record lists; Q/Z inequalities for the quantisers; nth/flat_map layout "
                  "lemmas for the planar arrays) + vm_compute correspondence check",
     "design_ref": "DESIGN.md §4 C15, §5 entry 16",
@@ -27,8 +29,10 @@ CFG = {
             "outside [-1,1]; FDC beyond the displayable range and at byte/clamp boundaries; opacities up to +-800) "
             "through splat.Write/Read; arbitrary and truncated .splat byte strings through splat.Read; SPZ streams "
             "from an independent reference encoder (versions 1-2, SH degree 0-3, fractional bits 0-23 and corner "
-            "counts up to 255, 256 single-point files sweeping every byte value of every byte field, 24-bit corner "
-            "patterns incl. the sign boundary, half-float patterns, 0/1/many points, invalid headers) gzip-ed into "
+            "counts up to 255, per version 256 single-point degree-3 files in which every byte field takes every value "
+            "0..255 plus 32-value sweeps for degrees 0-2, a fractional-bits x degree grid of two-point files, 24-bit "
+            "corner patterns incl. the bit-23 sign boundary and the bit-22 boundary, half-float patterns (all 65536 "
+            "in the thorough tier), 0/1/many points, invalid headers) gzip-ed by compress/gzip into "
             "spz.Read; truncated/trailing/hostile-count SPZ streams; splat clouds with subsets of the 62 SplatPly "
             "properties through ply.SplatPly.Write + ply.ReadMesh; distinct by input; non-trivial = at least one splat",
     "trusted": ["math.Exp/math.Log/sigmoid are float functions: the scale word and the opacity byte's pre-image are "
